@@ -189,6 +189,34 @@ def gen_case(seed, tier="quick"):
     case = {"kind": "twin14", "seed": seed, "be": be, "sys": list(sys_), "gnames": gnames, "mnames": mnames, "shape": shape,
             "cols": cols, "steps": steps, "faults": flts, "how": rng.choice(("a", "b", "c")), "record": as_record,
             "akorder": rng.sample(range(len(gnames)), len(gnames)) if rng.random() < 0.5 else list(range(len(gnames)))}
+    ry = random.Random(seed * 104729 + 11)    # its own stream too
+    if be in ("obj", "sym") and ry.random() < (0.6 if be == "sym" else 0.3):
+        # relatives: a second pair of twins obtained *from* the first (a copy, a rotation that keeps the other coordinate
+        # groups, a vector built from the same coordinate objects). Later assignments and in-place operators go to either
+        # pair; all pairs are compared after every step - assigning through a synonym must be indistinguishable from
+        # assigning through the geometric name in everything that can be observed afterwards, not only on the target.
+        hows = ["copy", "rotateZ", "ctor", "neg", "deepcopy"] + (["rotateX"] if dim >= 3 else [])
+        at = ry.randrange(len(steps))
+        steps.insert(at, {"s": "derive", "how": ry.choice(hows), "a": round(ry.uniform(-3, 3), 3)})
+        for f_ in flts:
+            if f_["i"] >= at:
+                f_["i"] += 1
+        for st_ in steps[at + 1:]:
+            if st_["s"] in ("set", "iop") and ry.random() < 0.5:
+                st_["tgt"] = 0
+        tail = []
+        for _ in range(ry.choice((1, 2, 3))):
+            g_ = ry.choice([x for d in range(2, dim + 1) for x in allg[d]])
+            if ry.random() < 0.6:
+                g_ = ry.choice(gnames)          # the stored coordinate itself: the case an in-place shortcut would take
+            st_ = {"s": "set", "g": g_, "m": _spell(ry, g_), "val": C.value(ry, g_)}
+            if ry.random() < 0.6:
+                st_["tgt"] = 0
+            tail.append(st_)
+        for f_ in flts:
+            if f_["i"] >= len(steps) - 1:
+                f_["i"] += len(tail)
+        steps[-1:-1] = tail
     rx = random.Random(seed * 7919 + 13)     # its own stream: the cases of earlier seeds stay what they were
     if be == "akraw" and rx.random() < 0.5:
         # raw records may carry extra fields, also ones named like a coordinate the vector does not use (an `eta`
@@ -288,6 +316,30 @@ def _norm(c):
     if isinstance(c, dict):
         return {C.GENERIC_OF.get(k, k): _norm(v) for k, v in c.items()}
     return c
+
+
+def _derive(v, how, a):
+    import copy
+
+    if how == "copy":
+        return copy.copy(v)
+    if how == "deepcopy":
+        return copy.deepcopy(v)
+    if how == "rotateZ":
+        return v.rotateZ(a)
+    if how == "rotateX":
+        return v.rotateX(a)
+    if how == "neg":
+        return -v
+    if how == "ctor":
+        kw = {}
+        for g in ("azimuthal", "longitudinal", "temporal"):
+            try:
+                kw[g] = object.__getattribute__(v, g)
+            except AttributeError:
+                break
+        return type(v)(**kw)
+    raise ValueError(how)
 
 
 def _same(a, b):
@@ -415,9 +467,15 @@ def run_case(case, vector):
                     stats["natural_exc"][n] = stats["natural_exc"].get(n, 0) + 1
         return out
 
+    rels = []    # pairs of twins derived from (Gv, Mv)
     for i, st in enumerate(case["steps"]):
         stats["steps"] += 1
         s = st["s"]
+        Tg, Tm = Gv, Mv
+        if st.get("tgt") is not None:
+            if st["tgt"] >= len(rels):
+                continue
+            Tg, Tm = rels[st["tgt"]]
         stats["states"].add(f"{be}|{'.'.join(case['sys'][q] or '-' for q in range(3))}|{s}:{st.get('m') or st.get('name') or ''}")
         if s == "table":
             if i in plan:
@@ -511,16 +569,21 @@ def run_case(case, vector):
                 fm = lambda: getattr(Mv, name)()  # noqa: E731
             rg, rm = twin_call(i, fg, fm)
             _both(i, st, rg, rm, viol, be, name)
+        elif s == "derive":
+            fd = lambda v_: _derive(v_, st["how"], st["a"])  # noqa: E731
+            rg, rm = twin_call(i, lambda: fd(Gv), lambda: fd(Mv))
+            if _both(i, st, rg, rm, viol, be, "derive:" + st["how"]):
+                rels.append((rg[1], rm[1]))
         elif s == "set":
             g, m, val = st["g"], st["m"], st["val"]
             if be == "sym":
                 import sympy
 
-                val = sympy.Symbol(g + "n", real=True)
-            rg, rm = twin_call(i, lambda: setattr(Gv, g, val), lambda: setattr(Mv, m, val))
+                val = sympy.Symbol(g + "n" + str(i), real=True)
+            rg, rm = twin_call(i, lambda: setattr(Tg, g, val), lambda: setattr(Tm, m, val))
             if rg[0] != rm[0]:
                 viol.append(_viol("one-raises-other-not", i, st, f"set {g} vs {m}: {_short(rg[1])} | {_short(rm[1])}", be))
-            rb = _call(lambda: getattr(Mv, m))
+            rb = _call(lambda: getattr(Tm, m))
             if rm[0] == "ok" and (rb[0] != "ok" or not _exact(rb[1], val)):
                 viol.append(_viol("assigned-synonym-reads-back-differently", i, st, f"{m}={val!r} reads {_short(rb[1])}", be))
         elif s == "iop":
@@ -533,9 +596,9 @@ def run_case(case, vector):
 
                     wg = _build(vector, case, gn, False)
                     wm = _build(vector, case, case["mnames"], True)
-                rg, rm = twin_call(i, lambda: op(Gv, wg), lambda: op(Mv, wm))
+                rg, rm = twin_call(i, lambda: op(Tg, wg), lambda: op(Tm, wm))
             else:
-                rg, rm = twin_call(i, lambda: op(Gv, st["f"]), lambda: op(Mv, st["f"]))
+                rg, rm = twin_call(i, lambda: op(Tg, st["f"]), lambda: op(Tm, st["f"]))
             if rg[0] != rm[0]:
                 viol.append(_viol("one-raises-other-not", i, st, f"{st['op']}: {_short(rg[1])} | {_short(rm[1])}", be))
         elif s == "index":
@@ -594,6 +657,10 @@ def run_case(case, vector):
         # after every step the twins hold identical numbers
         if not _same(Gv, Mv):
             viol.append(_viol("twins-diverged", i, st, f"generic {_short(Gv)} | momentum {_short(Mv)}", be))
+            break
+        if any(not _same(rg_, rm_) for rg_, rm_ in rels):
+            k_ = next(q for q, (rg_, rm_) in enumerate(rels) if not _same(rg_, rm_))
+            viol.append(_viol("twins-diverged", i, st, f"relative {k_}: generic {_short(rels[k_][0])} | momentum {_short(rels[k_][1])}", be))
             break
     return _done(viol, stats, case)
 
